@@ -295,7 +295,14 @@ lzma_decode(void *coder_ptr, lzma_dict *restrict dictptr,
 	// EOPM is always required (not just allowed) when
 	// the uncompressed size isn't known. When uncompressed size
 	// is known, eopm_is_valid may be set to true later.
-	bool eopm_is_valid = coder->uncompressed_size == LZMA_VLI_UNKNOWN;
+	//
+	// This function may need to return in the middle of the EOPM symbol
+	// (not enough input). When the decoding is then resumed,
+	// this variable must become true again: if all uncompressed data
+	// has been decoded already and EOPM is allowed, EOPM is the only
+	// symbol that can still be valid.
+	bool eopm_is_valid = coder->uncompressed_size == LZMA_VLI_UNKNOWN
+			|| (coder->allow_eopm && coder->uncompressed_size == 0);
 
 	// If uncompressed size is known and there is enough output space
 	// to decode all the data, limit the available buffer space so that
